@@ -96,7 +96,7 @@ def scenario(sid, shape, script, long_ms, origin="gen"):
     me = {"env": "e1"}
     observe = {"do": "poll", "env": "e1", "until": ANYSTATE, "timeout_ms": 3000}
     steps = []
-    if any(x[0] in ("latereply", "stale") or (x[0] == "api" and x[2] == "owed") for x in script):
+    if any(x[0] in ("latereply", "stale") or (x[0] == "api" and len(x) > 2 and x[2] == "owed") for x in script):
         steps += [{"do": "c03track"}]
     wpoint = "env.watch.recv"
     # --- setup: reach the initial state of the model -----------------------------------------
@@ -118,6 +118,7 @@ def scenario(sid, shape, script, long_ms, origin="gen"):
     # --- script --------------------------------------------------------------------------------
     txpoint, ncall = None, 0
     crit_hit = False
+    marmed = False
     for s in script:
         if s[0] == "armw":
             steps += [{"do": "gate", "point": wpoint, "match": me}]
@@ -146,7 +147,10 @@ def scenario(sid, shape, script, long_ms, origin="gen"):
             if s[1] == "INTERNAL_ERROR":
                 # a task that went to ERROR on its own answers every later command with an error
                 steps += [{"do": "script", "rule": {"class": cls, "outcome": "err_error"}}]
-            steps += [{"do": "fault", "kind": s[1], "class": cls}, {"do": "settle", "ms": 60}]
+            steps += [{"do": "fault", "kind": s[1], "class": cls}]
+            if marmed and s[1] != "TASK_FINISHED" and s[1] != "INTERNAL_ERROR":
+                steps += [{"do": "waitgate", "point": "wf.taskrole.merged", "timeout_ms": 3000}]
+            steps += [{"do": "settle", "ms": 60}]
             group = [t for i, t in enumerate(tids, 1) if host_of(shape["layout"], i, n) == host_of(shape["layout"], tids.index(s[2]) + 1, n)]
             hit = group if s[1] in ("EXECUTOR_LOST", "AGENT_LOST") else [s[2]]
             crit_hit = crit_hit or any(shape["crit"][t] for t in hit)
@@ -163,6 +167,13 @@ def scenario(sid, shape, script, long_ms, origin="gen"):
             steps += [{"do": "latereply", "class": cls_of[s[1]]}, {"do": "settle", "ms": 60}]
         elif s[0] == "mupdate":
             steps += [{"do": "masterupdate", "class": cls_of[s[1]], "kind": s[2]}, {"do": "settle", "ms": 60}]
+        elif s[0] == "armm":
+            # the ERROR update of a task role parks between its merge into the role and its forwarding to the parent
+            marmed = True
+            steps += [{"do": "gate", "point": "wf.taskrole.merged", "match": {"env": "e1", "state": "ERROR"}}]
+        elif s[0] == "releasem":
+            marmed = False
+            steps += [{"do": "ungate", "point": "wf.taskrole.merged"}, {"do": "settle", "ms": 60}]
         elif s[0] == "armf":
             steps += [{"do": "gate", "point": "env.watch.fire", "match": me}]
         elif s[0] == "releasef":
@@ -201,6 +212,8 @@ def instant_of(shape, script):
             parts.append("%s-%s" % (s[1].lower(), s[2]))
         elif s[0] == "mupdate":
             parts.append("after-master-update-" + s[2])
+        elif s[0] == "armm":
+            parts.append("error-update-held-after-merge")
         elif s[0] in ("stale", "latereply") and seen:
             parts.append("then-" + ("stale-state" if s[0] == "stale" else "late-answer") + ("-within-grace" if "armf" in [x[0] for x in script]
                          and script.index(s) < [x[0] for x in script].index("releasef") else ""))
@@ -311,6 +324,9 @@ def pick(ctx, cases, quick):
     # a stale healthy state message of the dead task, within / beyond the grace period
     take(lambda c: two(c) and "stale" in steps_of(c) and fault_of(c)[2] == [s for s in c[1] if s[0] == "stale"][0][1] and victim_crit(c),
          lambda c: steps_of(c) if quick else (steps_of(c), c[0]["state"], kinds(c)), 1)
+    # ... and the same with the ERROR update held between its merge into the role and its forwarding
+    take(lambda c: two(c) and steps_of(c) == ("armm", "fault", "stale", "releasem") and fault_of(c)[2] == c[1][2][1] and c[0]["layout"] == "own",
+         lambda c: ((kinds(c) if victim_crit(c) else "non-critical") if quick else (kinds(c), victim_crit(c), c[0]["state"])), 1)
     if quick:
         take(lambda c: c[0]["hook"] == "none", lambda c: 0, 4)
     else:
@@ -341,6 +357,9 @@ def run(ctx):
     ctx.model_check("Failure", None, workers=w, cfg_text=cfg_model(ctx, stale=1, mup=1))
     ctx.model_check("Failure", None, workers=w, cfg_text=cfg_model(ctx, hooks=("early", "late"), kinds=["TASK_FAILED", "AGENT_LOST"] if quick else ALLKINDS,
                                                                    watch=("select",) if quick else ("select", "unsub", "busy")))
+    # the role update in separate steps (merge, publish, forward, root merge, send) against a stale message of the same task
+    ctx.model_check("Failure", None, workers=w, cfg_text=cfg_model(ctx, fine=True, stale=1, watch=("select",), layouts=("own",),
+                                                                   kinds=["TASK_FAILED", "AGENT_LOST", "INTERNAL_ERROR"]))
     # racing API transition: a task may die owing its answer, the answer may be processed after the failure
     if quick:
         ctx.model_check("Failure", None, workers=w, cfg_text=cfg_model(ctx, racing=True, watch=("select",), layouts=("own",),
@@ -414,6 +433,8 @@ def run(ctx):
     # a stale healthy state message of the dead task - within and beyond the watcher's 500 ms
     n5 = gen(racing=True, stale=1, mup=1, kinds=NOT_IE, watch=("select",), layouts=("own",) if quick else ("own", "shared"),
              extras=("mup", "owed", "stale"))
+    # the ERROR update of the victim's role held between merge and forwarding while a stale state message goes through
+    n5 += gen(fine=True, stale=1, kinds=NOT_IE, watch=("select",), layouts=("own",) if quick else ("own", "shared"), extras=("merge",))
     n3 = n4 = 0
     if not quick:
         n3 = gen(ntasks=3, layouts=("own", "mixed"), watch=("select", "busy"), racing=True,
@@ -495,6 +516,13 @@ def judge(ctx, scenarios, lines, cex_cases):
     for s in scenarios:
         tr = per.get(s["id"], [])
         bad = [x for x in tr if (x["ev"] == "Fault" and not x.get("ok")) or (x["ev"] == "End" and x.get("tainted"))]
+        # the setup (creation, the synchronous START / STOP that lead to the initial state of the script) must have worked:
+        # a failed deployment is harness trouble, never a verdict
+        for x in tr:
+            if x["ev"] in ("Fault", "MasterUpdate") or (x["ev"] == "Api" and x.get("caller")):
+                break
+            if x["ev"] == "ApiReply" and (x.get("code") != "OK" or (x.get("call") == "create" and x.get("st") != "CONFIGURED")):
+                bad.append(x)
         # a gate that nobody reached: the run is still a real execution (judged on its recorded facts), but not the intended schedule
         missed = [x["point"] for x in tr if x["ev"] == "GateReached" and not x.get("ok")]
         if missed:
